@@ -32,8 +32,8 @@ var frameSize = 1024
 const setupCode = "11122333"
 
 type world struct {
-	dir     string
-	t       interface {
+	dir string
+	t   interface {
 		Start()
 		Stop() <-chan struct{}
 		VerifPort() int
@@ -221,7 +221,7 @@ func hasCanary(b []byte) string {
 func charsSummary(body []byte) string {
 	var r struct {
 		Characteristics []map[string]interface{} `json:"characteristics"`
-		Status          interface{}               `json:"status"`
+		Status          interface{}              `json:"status"`
 	}
 	if len(body) == 0 {
 		return "-"
@@ -372,6 +372,8 @@ func runStack(id string, toks []string) (res string) {
 			} else {
 				emit(fmt.Sprintf("B=%d", r.status))
 			}
+		case "RACE":
+			emit(w.raceReads(p[1], p[2], p[3]))
 		case "G", "A", "P", "R", "X", "E":
 			emit(w.httpOp(p))
 		default:
@@ -837,3 +839,76 @@ func hexDecode(s string) ([]byte, error) {
 }
 
 var _ = ed25519.Sign
+
+// raceReads: RACE:<connA>:<connB>:<n>   connection A reads /accessories n times while connection B reads many
+// characteristics over and over; nothing changes in between, so every answer must be well-formed JSON and equal to the
+// first answer of its kind.
+func (w *world) raceReads(ca, cb, ns string) string {
+	a, b := w.conns[ca], w.conns[cb]
+	if a == nil || b == nil || a.dead || b.dead {
+		return "RACE=noconn"
+	}
+	n, _ := strconv.Atoi(ns)
+	var ids []string
+	for _, acc := range w.accs {
+		for _, sv := range acc.Services {
+			for _, c := range sv.Characteristics {
+				if len(ids) < 120 {
+					ids = append(ids, fmt.Sprintf("%d.%d", acc.ID, c.ID))
+				}
+			}
+		}
+	}
+	path := "/characteristics?id=" + strings.Join(ids, ",")
+	check := func(cc *ctlConn, method, p string, first *string) string {
+		r, err := cc.request(method, p, "", nil)
+		if err != nil {
+			return "closed"
+		}
+		if r.status != 200 && r.status != 207 {
+			return fmt.Sprintf("status%d", r.status)
+		}
+		var v interface{}
+		if json.Unmarshal(r.body, &v) != nil {
+			return "malformed-json"
+		}
+		if *first == "" {
+			*first = string(r.body)
+		} else if *first != string(r.body) {
+			return "answer-differs"
+		}
+		return ""
+	}
+	done := make(chan string, 1)
+	stop := make(chan struct{})
+	go func() {
+		first := ""
+		for {
+			select {
+			case <-stop:
+				done <- ""
+				return
+			default:
+			}
+			if e := check(b, "GET", path, &first); e != "" {
+				done <- "characteristics:" + e
+				return
+			}
+		}
+	}()
+	first := ""
+	res := ""
+	for i := 0; i < n && res == ""; i++ {
+		if e := check(a, "GET", "/accessories", &first); e != "" {
+			res = fmt.Sprintf("accessories:%s@%d", e, i)
+		}
+	}
+	close(stop)
+	if e := <-done; e != "" && res == "" {
+		res = e
+	}
+	if res == "" {
+		return "RACE=ok"
+	}
+	return "RACE=" + res
+}
